@@ -13,44 +13,70 @@ def run(run, outdir, seed, tier, BIN, SPEC):
         info["errors"].append("tracegen failed: " + p.stdout[-800:])
         return info, None
     gen = json.loads(p.stdout.strip().splitlines()[-1])
-    md = os.path.join(outdir, "md")
-    shutil.rmtree(md, ignore_errors=True)
-    env = dict(os.environ, TRACE=trace, JAVA_TOOL_OPTIONS="-Xss1g -Dtlc2.tool.queue.IStateQueue=StateDeque")
-    t0 = time.time()
-    q = subprocess.run(["timeout", str(run.get("timeout", 1500)), "tlc", "-workers", "1", "-metadir", md, "-cleanup", "-noGenerateSpecTE",
-                        "-config", "Trace.cfg", "Trace.tla"], cwd=SPEC, env=env, stdout=subprocess.PIPE, stderr=subprocess.STDOUT, text=True)
-    shutil.rmtree(md, ignore_errors=True)
-    out = q.stdout
-    open(os.path.join(outdir, "tlc.log"), "w").write(out)
-    m = re.search(r"(\d+) states generated, (\d+) distinct states found", out)
-    if m:
-        info["generated"], info["distinct"] = int(m.group(1)), int(m.group(2))
-    fails, counts = [], {}
-    rej = re.search(r'"TRACE-REJECTED", "event", (\d+), "of", (\d+), "([a-z_]+)"', out)
     events = [json.loads(l) for l in open(trace)]
-    if rej:
-        idx = int(rej.group(1))
-        op = rej.group(3)
+    lines = open(trace).read().splitlines()
+    # Traces are independent (each starts with a reset; decode_bytes events touch no state), so the
+    # recording is cut at those boundaries and the pieces are validated by parallel TLC runs.
+    target = int(run.get("chunk", 2500))
+    cuts = [0]
+    for i in range(1, len(events)):
+        boundary = events[i]["op"] == "reset" or (events[i]["op"] == "decode_bytes" and events[i - 1]["op"] == "decode_bytes")
+        if boundary and i - cuts[-1] >= target:
+            cuts.append(i)
+    cuts.append(len(events))
+    t0 = time.time()
+    deadline = t0 + run.get("timeout", 1500)
+
+    def validate(k):
+        lo, hi = cuts[k], cuts[k + 1]
+        part = os.path.join(outdir, "part%03d.ndjson" % k)
+        open(part, "w").write("\n".join(lines[lo:hi]) + "\n")
+        md = os.path.join(outdir, "md%03d" % k)
+        shutil.rmtree(md, ignore_errors=True)
+        env = dict(os.environ, TRACE=part, JAVA_TOOL_OPTIONS="-Xss1g -Xmx3g -Dtlc2.tool.queue.IStateQueue=StateDeque")
+        left = max(30, int(deadline - time.time()))
+        q = subprocess.run(["timeout", str(left), "tlc", "-workers", "1", "-metadir", md, "-cleanup", "-noGenerateSpecTE",
+                            "-config", "Trace.cfg", "Trace.tla"], cwd=SPEC, env=env, stdout=subprocess.PIPE, stderr=subprocess.STDOUT, text=True)
+        shutil.rmtree(md, ignore_errors=True)
+        os.remove(part)
+        return k, q.stdout
+
+    from concurrent.futures import ThreadPoolExecutor
+    with ThreadPoolExecutor(max_workers=int(run.get("parallel", 8))) as ex:
+        outs = sorted(ex.map(validate, range(len(cuts) - 1)))
+    open(os.path.join(outdir, "tlc.log"), "w").write("\n".join("==== part %d (events %d..%d)\n%s" % (k, cuts[k] + 1, cuts[k + 1], o) for k, o in outs))
+    fails, counts = [], {}
+    rej_idx, rej_op = None, None
+    info["finished"] = True
+    for k, out in outs:
+        m = re.search(r"(\d+) states generated, (\d+) distinct states found", out)
+        if m:
+            info["generated"] += int(m.group(1))
+            info["distinct"] += int(m.group(2))
+        rej = re.search(r'"TRACE-REJECTED", "event", (\d+), "of", (\d+), "([a-z_]+)"', out)
+        if rej:
+            if rej_idx is None:
+                rej_idx, rej_op = cuts[k] + int(rej.group(1)), rej.group(3)
+        elif "Model checking completed. No error has been found." not in out:
+            info["finished"] = False
+            info["errors"].append("TLC trace validation failed to run (part %d): %s" % (k, out[-1500:]))
+    if rej_idx is not None:
+        idx, op = rej_idx, rej_op
         # the trace this event belongs to, up to and including it
-        start = max(i for i in range(idx) if events[i]["op"] == "reset")
+        start = max([i for i in range(idx) if events[i]["op"] == "reset"] or [0])
         key = "trace:%s" % op
         counts[key] = 1
         fails.append({"kind": "trace", "op": op, "key": key, "round": 0, "seed": seed,
                       "detail": "recorded event %d (%s) is not a step the specification allows: %s" % (idx, op, json.dumps(events[idx - 1])[:600]),
                       "trace": events[start:idx]})
-        info["finished"] = True
-    elif "Model checking completed. No error has been found." in out:
-        info["finished"] = True
-    else:
-        info["errors"].append("TLC trace validation failed to run: " + out[-1500:])
     per_op = {}
     for e in events:
         per_op[e["op"]] = per_op.get(e["op"], 0) + 1
-    consumed = (int(rej.group(1)) - 1) if rej else len(events)
+    consumed = (rej_idx - 1) if rej_idx is not None else len(events)
     samples = [events[i] for i in range(min(len(events), 40)) if events[i]["op"] not in ("reset", "new")][:3]
     rep = {"behaviours": gen["traces"], "evaluations": consumed, "rounds": 1, "seed": seed,
            "distinct_nontrivial": len({json.dumps(e["res"]) for e in events[:consumed] if e["out"] == "ok" and len(json.dumps(e["res"])) > 40}),
            "per_op": per_op, "per_out": {}, "failure_counts": counts, "failures": fails, "tool_errors": 0,
            "samples": [{"trace_events": samples}],
-           "extra": {"events_recorded": len(events), "events_validated": consumed, "tlc_wall_s": round(time.time() - t0, 1)}}
+           "extra": {"events_recorded": len(events), "events_validated": consumed, "tlc_wall_s": round(time.time() - t0, 1), "tlc_runs": len(cuts) - 1}}
     return info, rep
